@@ -3,7 +3,8 @@ import os
 import sys
 import z3
 sys.path.insert(0, os.path.dirname(os.path.dirname(os.path.abspath(__file__))))
-from props.common import main, Run, run_child, ALL_SIDECARS  # noqa: E402
+from props.common import main, Run, run_child, ALL_SIDECARS, companion_replayer, bounded_companion  # noqa: E402
+from props.c02 import LOAD_DIFF, name_ld  # noqa: E402
 from props import faces, cli_faces  # noqa: E402
 from props.c18 import cli_contract  # noqa: E402
 from pyvc.state import State  # noqa: E402
@@ -49,6 +50,10 @@ def build(run: Run):
     run.verify("cli.main", extra_post=cli_faces.check_paths)
     eng.back_edge_hook = None
     run.replayers.append(make_cli_replayer(run))
+    # the loader face and the boolean query against the library verdict on concrete files (the same companion as C02's)
+    run.replayers.append(companion_replayer(run, "C10", "load_diff.py", name_fn=name_ld, how=LOAD_DIFF,
+                                            only=lambda o: o.name.split(":")[0].split(".")[0] in ("loader", "analysis")))
+    bounded_companion(run, "C10", "load_diff.py", name_fn=name_ld, what=LOAD_DIFF)
     d = run_child(run.repo.root, "cli_diff.py", [str(run.seed)])
     if "error" in d:
         raise RuntimeError(f"replay/cli_diff.py failed: {d}")
